@@ -1,4 +1,5 @@
 import XalanModel.C08.Indent
+import XalanModel.Generated.C08_CallPoints
 /-
 C08 — lexical rendering of the token stream (what the `m_writer.write…` calls of
 FormatterToXMLUnicode.hpp put on the stream), as code points; the check decodes the real bytes with the
@@ -23,22 +24,33 @@ structure RenderCfg where
   maxChar : Nat := 0x10FFFF -- largest code point the output encoding represents (UTF-8/16: all)
   /-- source fact (call-point translator): `writeCDATAChars` re-opens (not closes) a section before a `]]>` that
   follows an unrepresentable character and leaves a text that ends outside a section alone (repaired source) -/
-  cdataRepaired : Bool := true
+  cdataRepaired : Bool := XalanModel.Generated.C08.cdataCharsRepaired
+  /-- source fact: `writeCDATAChars` leaves the section to write CR (1.1: also NEL, LSEP, restricted characters) as a
+  numeric reference -/
+  cdataRefs : Bool := XalanModel.Generated.C08.cdataRefsLineEnds
 deriving Repr, Inhabited
 
 /-- `writeDefaultEntity` -/
 def defaultEntity (c : Nat) : Option Str :=
   if c = 60 then some (s "&lt;") else if c = 62 then some (s "&gt;") else if c = 38 then some (s "&amp;") else none
 
-/-- is the character "special in content" (`m_charPredicate.content`), for the modelled classes -/
-def contentSpecial (r : RenderCfg) (c : Nat) : Bool :=
-  if r.v11 then (1 ≤ c && c ≤ 31) || c = 38 || c = 60 || c = 62 || (127 ≤ c && c ≤ 159)
-  else c = 10 || c = 13 || c = 38 || c = 60 || c = 62
+/-- class of a character in the regenerated `CharFunctor1_0/1_1::s_specialChars` (0 beyond `s_lastSpecial`):
+eNone 0, eAttr 1, eBoth 2, eForb 4, eCRFb 5 -/
+def charClass (r : RenderCfg) (c : Nat) : Nat :=
+  (if r.v11 then XalanModel.Generated.C08.charTable11 else XalanModel.Generated.C08.charTable10).getD c 0
 
-def attrSpecial (r : RenderCfg) (c : Nat) : Bool :=
-  contentSpecial r c || c = 34 || c = 9
+/-- `m_charPredicate.content` -/
+def contentSpecial (r : RenderCfg) (c : Nat) : Bool := charClass r c > 1
 
-def inRange (r : RenderCfg) (c : Nat) : Bool := if r.v11 then c > 0x9F else c > 0x7F
+/-- `m_charPredicate.attribute` -/
+def attrSpecial (r : RenderCfg) (c : Nat) : Bool := charClass r c > 0
+
+/-- `m_charPredicate.range`: beyond `s_lastSpecial` -/
+def inRange (r : RenderCfg) (c : Nat) : Bool :=
+  c ≥ (if r.v11 then XalanModel.Generated.C08.charTable11 else XalanModel.Generated.C08.charTable10).length
+
+/-- `m_charPredicate.isCharRefForbidden` (1.0: eForb, 1.1: eCRFb) -/
+def charRefForbidden (r : RenderCfg) (c : Nat) : Bool := charClass r c = (if r.v11 then 5 else 4)
 
 /-- `writeNormalizedCharBig` + the writer's handling of an unrepresentable character -/
 def bigChar (r : RenderCfg) (c : Nat) : Str :=
@@ -65,17 +77,20 @@ def attrChar (r : RenderCfg) (c : Nat) : Str :=
 (XalanOtherEncodingWriter.hpp 126-199; the UTF-8/16 writers represent everything), as written; `outside` is
 `outsideCDATA`.  A `]]>` is split over two sections; a character the encoding cannot represent closes the section
 and is written as a numeric reference outside it, the next representable character re-opens a section.
-With `fixed = false` this is the unrepaired source: after an unrepresentable character a following `]]>` writes
+With `cdataRepaired = false` this is the unrepaired source: after an unrepresentable character a following `]]>` writes
 the *close* string, and a text that ends outside a section writes the *open* string and no close. -/
-def cdataCharsEnc (fixed : Bool) (maxc : Nat) : Str → Bool → Str
+def cdataCharsEnc (r : RenderCfg) : Str → Bool → Str
   | 93 :: 93 :: 62 :: rest, outside =>
-    (if outside then (if fixed then s "<![CDATA[" else s "]]>") else []) ++ s "]]]]><![CDATA[>"
-      ++ cdataCharsEnc fixed maxc rest false
+    (if outside then (if r.cdataRepaired then s "<![CDATA[" else s "]]>") else []) ++ s "]]]]><![CDATA[>"
+      ++ cdataCharsEnc r rest false
   | c :: rest, outside =>
-    if c = 10 then 10 :: cdataCharsEnc fixed maxc rest outside
-    else if c ≤ maxc then (if outside then s "<![CDATA[" else []) ++ c :: cdataCharsEnc fixed maxc rest false
-    else (if outside then [] else s "]]>") ++ charRef c ++ cdataCharsEnc fixed maxc rest true
-  | [], outside => if outside then (if fixed then [] else s "<![CDATA[") else s "]]>"
+    if c = 10 then 10 :: cdataCharsEnc r rest outside
+    else if r.cdataRefs && (c = 13 || (r.v11 && (charRefForbidden r c || c = 0x85 || c = 0x2028))) then
+      -- leave the section for a reference; `outsideCDATA` is not changed
+      (if outside then [] else s "]]>") ++ charRef c ++ (if outside then [] else s "<![CDATA[") ++ cdataCharsEnc r rest outside
+    else if c ≤ r.maxChar then (if outside then s "<![CDATA[" else []) ++ c :: cdataCharsEnc r rest false
+    else (if outside then [] else s "]]>") ++ charRef c ++ cdataCharsEnc r rest true
+  | [], outside => if outside then (if r.cdataRepaired then [] else s "<![CDATA[") else s "]]>"
 
 def isXMLWhitespace (c : Nat) : Bool := c = 32 || c = 9 || c = 10 || c = 13
 
@@ -97,7 +112,7 @@ def Tok.render (r : RenderCfg) : Tok → Str
   | .emptyEnd sp => (if sp then s " " else []) ++ s "/>"
   | .close name => s "</" ++ name ++ s ">"
   | .text t => t.flatMap (contentChar r)
-  | .cdata t => s "<![CDATA[" ++ cdataCharsEnc r.cdataRepaired r.maxChar t false
+  | .cdata t => s "<![CDATA[" ++ cdataCharsEnc r t false
   | .raw t => t
   | .comment t => s "<!--" ++ t ++ s "-->"
   | .pi t d =>
@@ -106,6 +121,29 @@ def Tok.render (r : RenderCfg) : Tok → Str
       | c :: _ => if isXMLWhitespace c then [] else s " ") ++ d ++ s "?>"
   | .nl => [10]
   | .ws n => List.replicate n 32
+
+/-- `throwIfNotACharacter` and the writers' surrogate handling: a string of UTF-16 code units the XML serializer
+accepts — surrogates only in well-formed pairs, no U+FFFE, U+FFFF, NUL -/
+def validUnits : Str → Bool
+  | [] => true
+  | c :: rest =>
+    if 0xD800 ≤ c && c ≤ 0xDBFF then
+      match rest with
+      | d :: rest' => 0xDC00 ≤ d && d ≤ 0xDFFF && validUnits rest'
+      | [] => false
+    else if 0xDC00 ≤ c && c ≤ 0xDFFF then false
+    else if c = 0xFFFE || c = 0xFFFF || c = 0 then false
+    else validUnits rest
+
+/-- every character string of the event is acceptable -/
+def Ev.valid : Ev → Bool
+  | .startElement _ attrs => attrs.all fun a => validUnits a.2
+  | .endElement _ => true
+  | .characters t => validUnits t
+  | .cdata t => validUnits t
+  | .raw _ => true
+  | .comment t => validUnits t
+  | .pi _ d => validUnits d
 
 def renderAll (r : RenderCfg) (l : List Tok) : Str := l.flatMap (Tok.render r)
 
